@@ -34,19 +34,53 @@ pub struct Drift {
 	pub n: f64,
 	pub t: f64,
 	pub m: f64,
+	/// all observed values were exactly known integer multiples of 2^lsb (i32::MAX: only zeros so far)
+	pub lsb: i32,
+	pub lattice: bool,
 }
+
+/// exponent of the lowest set bit of a finite non-zero double
+fn lowest_bit_exponent(x: f64) -> i32 {
+	let bits = x.to_bits();
+	let exp = ((bits >> 52) & 0x7ff) as i32;
+	let frac = bits & ((1u64 << 52) - 1);
+	let (mant, e) = if exp == 0 { (frac, -1074) } else { (frac | (1u64 << 52), exp - 1075) };
+	e + mant.trailing_zeros() as i32
+}
+
 impl Drift {
+	/// Every partial sum of up to n + 2 of the observed values, taken in any order, is an integer multiple of the common
+	/// grid 2^lsb and smaller than 2^mantissa grid units: a running sum kept by additions and subtractions carries no
+	/// rounding at all, whatever the order of the operations (prices and volumes on a tick grid).
+	pub fn lattice_exact(&self) -> bool {
+		if !self.lattice {
+			return false;
+		}
+		if self.lsb == i32::MAX {
+			return true; // only zeros
+		}
+		let mant = if cfg!(feature = "value_type_f32") { 24 } else { 53 };
+		let units = (self.n + 2.0) * self.m / 2f64.powi(self.lsb);
+		units.is_finite() && units < 2f64.powi(mant) && self.lsb > -1000
+	}
 	pub fn history(&mut self, t: f64, m: f64) {
 		self.t = self.t.max(t);
 		self.m = self.m.max(m);
+		// nothing is known about the grid of a history that was not observed
+		self.lattice = false;
 	}
 	pub fn new(c: f64, n: usize, init: T) -> Self {
-		Drift {
+		let mut d = Drift {
 			c,
 			n: n as f64,
 			t: 0.0,
-			m: init.mag(),
-		}
+			m: 0.0,
+			lsb: i32::MAX,
+			lattice: true,
+		};
+		d.observe(init);
+		d.t = 0.0;
+		d
 	}
 	#[inline]
 	pub fn observe(&mut self, x: T) {
@@ -54,6 +88,11 @@ impl Drift {
 		let m = x.mag();
 		if m > self.m {
 			self.m = m;
+		}
+		if x.e != 0.0 || !x.v.is_finite() {
+			self.lattice = false;
+		} else if x.v != 0.0 && self.lattice {
+			self.lsb = self.lsb.min(lowest_bit_exponent(x.v));
 		}
 	}
 	/// u (n + t) M  — the unit in which drift is measured
@@ -323,6 +362,10 @@ impl RMethod for RRunSum {
 	fn next(&mut self, x: T) -> T {
 		self.w.push(x);
 		self.d.observe(x);
+		if self.d.lattice_exact() {
+			// exact in every order of evaluation: plain summation is exact too
+			return T::new(self.w.q.iter().map(|x| x.v).sum::<f64>(), 0.0);
+		}
 		// scale of the output is n*M
 		sum(self.w.q.iter().copied()).widen(self.d.d() * self.d.n)
 	}
@@ -601,10 +644,15 @@ impl RMethod for REma {
 		}
 		self.m = self.m.max(x.mag());
 		let a = self.alpha;
-		// input error part and own rounding part are tracked together in y.e
+		// input error part and own rounding part are tracked together in y.e. One update `(x - y)·α + y` (or `α·x + (1-α)·y`)
+		// rounds at the scale of the *current* input and state - not of the largest input of the history - so the bound
+		// follows the state down when it decays (a long flat stretch after movement) instead of freezing at u·M_history;
+		// η covers the subnormal range
+		let local = x.mag().max(self.y.mag());
 		let v = self.y.v + a * (x.v - self.y.v);
-		let e = (1.0 - a) * self.y.e + a * x.e + C_EMA * U * self.m;
-		self.own = (1.0 - a) * self.own + C_EMA * U * self.m;
+		let step = C_EMA * U * local.max(v.abs()) + ETA;
+		let e = (1.0 - a) * self.y.e + a * x.e + step;
+		self.own = (1.0 - a) * self.own + step;
 		self.y = T::new(v, e);
 		self.y
 	}
